@@ -216,10 +216,16 @@ func raceChild() {
 			d := post(h, eps.DeviceAuthorization.Relative(), url.Values{"scope": {"openid"}}, true, "")
 			w.stores[2].Approve(d.Str("user_code"), "alice")
 			var wg sync.WaitGroup
+			state := w.stores[2].DeviceState(d.Str("device_code"))
 			for k := 0; k < 2; k++ {
 				wg.Add(1)
 				go func() {
 					defer wg.Done()
+					// what two concurrent token requests do with the state a storage hands out
+					// (refstore serialises part of the flow under its own mutex, so call the getter directly too)
+					if state != nil {
+						_ = state.GetAudience()
+					}
 					post(h, eps.Token.Relative(), url.Values{"grant_type": {string(oidc.GrantTypeDeviceCode)}, "device_code": {d.Str("device_code")}}, true, "")
 				}()
 			}
